@@ -72,7 +72,15 @@ static void setup(size_t len, unsigned start)
 	store = arena;
 	memset(store, 0xA5, len);
 #endif
-	ringbuf_init(&rb, store, len);
+	static unsigned setup_no;
+	if (++setup_no & 1) {
+		ringbuf_init(&rb, store, len);
+	} else {
+		/* the static initialiser must describe the same ring */
+		ringbuf_t tmp = RINGBUF_VAR_INIT(store, len);
+		memset(&rb, 0x5a, sizeof(rb));
+		memcpy(&rb, &tmp, sizeof(rb));
+	}
 	atomic_store(&rb.readi, start % len);
 	atomic_store(&rb.writei, start % len);
 	puts_ok = gets_ok = put_fail = get_empty = empty_true = 0;
